@@ -97,8 +97,41 @@ func c10(c *Ctx) {
 		}
 		// NewStringMatch: fields of the returned literal
 		var lit map[string]ssa.Value
+		var twoLits []*ssa.Alloc // the regex literal and the other one, when the regex case returns early
 		if cs := complitsOf(ns, "StringMatch"); len(cs) == 1 {
 			lit = cs[0]
+		} else if len(cs) == 2 {
+			var als []*ssa.Alloc
+			eachInstr(ns, func(in ssa.Instruction) {
+				if al, ok := in.(*ssa.Alloc); ok && al.Comment == "complit" && structName(al.Type()) == "StringMatch" {
+					als = append(als, al)
+				}
+			})
+			if len(als) == 2 {
+				isCompile := func(v ssa.Value) bool {
+					cl, ok := v.(*ssa.Call)
+					return ok && isCall(cl, "regexp.MustCompile", "regexp.Compile")
+				}
+				f0, f1 := complitFields(als[0]), complitFields(als[1])
+				if isCompile(f1["regex"]) {
+					als[0], als[1], f0, f1 = als[1], als[0], f1, f0
+				}
+				// f0: the regex matcher; f1: the prefix / exact matcher (no regex)
+				_, hasRe := f1["regex"]
+				pm, hasPm := f0["prefixMatch"]
+				pmFalse := !hasPm
+				if k, isK := pm.(*ssa.Const); hasPm && isK && k.Value != nil && k.Value.ExactString() == "false" {
+					pmFalse = true
+				}
+				if isCompile(f0["regex"]) && (!hasRe || isNilConst(f1["regex"])) && pmFalse && f0["invertMatch"] == f1["invertMatch"] && f0["invertMatch"] != nil {
+					lit = map[string]ssa.Value{}
+					for k, v := range f1 {
+						lit[k] = v
+					}
+					lit["regex"] = f0["regex"]
+					twoLits = als
+				}
+			}
 		}
 		if lit == nil {
 			r.Fail("NewStringMatch:literal", ns.Pos(), "returned StringMatch literal not found")
@@ -302,6 +335,19 @@ func c10(c *Ctx) {
 				okRegexField, whyRF = false, "regex = "+pathOf(vc.V)+" under conditions that do not mention the regex: prefix"
 			case !known && isCompile:
 				// the compile call itself is checked to be under the prefix test (regex-prefix above)
+			}
+		}
+		if twoLits != nil {
+			// two literals: the one with the compiled expression is built exactly where the pattern is known to
+			// start with regex:, the one without exactly where it is known not to; the regex matcher's text is
+			// what was compiled
+			reFields := complitFields(twoLits[0])
+			okSplit := testKnown(twoLits[0].Block(), "regex:", false, true) && testKnown(twoLits[1].Block(), "regex:", false, false)
+			if cl, ok := reFields["regex"].(*ssa.Call); !ok || len(cl.Call.Args) != 1 || reFields["test"] != cl.Call.Args[0] {
+				okSplit = false
+			}
+			if !okSplit {
+				okRegexField, whyRF = false, "the two StringMatch literals are not separated by the regex: prefix test"
 			}
 		}
 		r.Check("NewStringMatch:regex-field-iff-prefix", okRegexField, ns.Pos(), "regex is the compiled remainder exactly when the pattern starts with regex: "+whyRF)
